@@ -401,3 +401,33 @@ package semver
 //@ func System.token
 //@   loop 1
 //@     invariant start <= i && i <= len(str) && 0 <= start
+
+// ---------------------------------------------------------------------------
+// C09: what a span contains, and what newSpan builds.
+// compare is used by symbol here (its order laws are C01's business).
+
+//@ opaque compare
+
+//@ lemma span.contains.interval
+//@   vars s span; v *Version
+//@   unfold span.contains
+//@   requires v != nil && imp(s.rank != empty, s.min != nil && s.max != nil)
+//@   ensures imp(s.rank == empty, !s.contains(v, true))
+//@   ensures imp(s.rank == unit, s.contains(v, true) == (compare(s.min, v) == 0))
+//@   ensures imp(s.rank == vector, s.contains(v, true) ==
+//@           ((compare(v, s.min) > 0 || (compare(v, s.min) == 0 && !s.minOpen)) &&
+//@            (compare(s.max, v) > 0 || (compare(s.max, v) == 0 && !s.maxOpen))))
+//@   property C09
+
+// newSpan: a unit span is closed at both ends and holds exactly its one version;
+// a vector span keeps the flags it was given and has min strictly below max;
+// equal ends with an open flag give the empty span.
+//@ func newSpan
+//@   requires min != nil && max != nil
+//@   ensures imp(result1 == nil, result0.rank == empty || result0.rank == unit || result0.rank == vector)
+//@   ensures imp(result1 == nil && result0.rank == unit, !result0.minOpen && !result0.maxOpen && result0.min == result0.max &&
+//@           result0.min != nil && compare(result0.min, max) == 0 && !minOpen && !maxOpen)
+//@   ensures imp(result1 == nil && result0.rank == vector, result0.minOpen == minOpen && result0.maxOpen == maxOpen &&
+//@           result0.min != nil && result0.max == max && compare(result0.min, result0.max) < 0)
+//@   ensures imp(result1 == nil && result0.rank == empty, (minOpen || maxOpen))
+//@   property C09
